@@ -109,7 +109,15 @@ def composite_codec_get_coded_const_prefix(codec: CompositeCodec,
         else:
             break
 
-    return encode_state.coded_message
+    # only the leading bytes which are completely determined by the
+    # constant parameters are part of the prefix (constants may be
+    # located behind a gap that is filled by other parameters)
+    prefix_len = 0
+    while prefix_len < len(encode_state.coded_message) and \
+            encode_state.used_mask[prefix_len] == 0xff:
+        prefix_len += 1
+
+    return encode_state.coded_message[:prefix_len]
 
 
 def composite_codec_encode_into_pdu(codec: CompositeCodec, physical_value: Optional[ParameterValue],
